@@ -501,6 +501,16 @@ def load_corpus():
 # ------------------------------------------------------------------------------------------------
 TABLE_MAX_D = 256          # full table (all (x,y) pairs) from Coq up to this total dimension
 TABLE_MAX_D_THOROUGH = 432
+TABLE_LIMIT = 300            # tables with more nonzero entries come back as a digest (see Model/Expand.v)
+HASH_P = 2305843009213693951
+HASH_B = (1000003, 998244353)
+
+
+def hash_cells(B, cells):
+    h = 0
+    for c in cells:
+        h = (h * B + c + 1) % HASH_P
+    return h
 
 
 def _sample_pairs(rng, case, ts, n):
@@ -558,7 +568,7 @@ def eval_model(ctx, jobs):
             for key, j in ch:
                 a = _coq_args(j[1])
                 if j[0] == "table":
-                    body.append(f"Eval vm_compute in (expand_table_z {a}).")
+                    body.append(f"Eval vm_compute in (expand_table_z {TABLE_LIMIT} {a}).")
                 elif j[0] == "status":
                     body.append(f"Eval vm_compute in (expand_dims {a}, expand_order {a}).")
                 else:
@@ -587,26 +597,13 @@ def eval_model(ctx, jobs):
                 res[key] = h
             else:
                 rdims, rest = h
-                D = _prod(rdims)
-                C = _prod(j[1]["ocol"])
-                M = _prod(j[1]["orow"]) * C + 1
-                ncells, cells = rest[0], []
-                for w in rest[1:]:
-                    grp = []
-                    while w:
-                        grp.append((w & 0xFFFFFFFFFF) - 1)
-                        w >>= 40
-                    cells.extend(reversed(grp))
-                if len(cells) != ncells:
-                    raise Broken("coq-eval:" + name, "packed table does not decode")
-                mm = {}
-                for n in cells:
-                    pos, code = divmod(n, M)
-                    if code == 0:
-                        mm[(pos // D, pos % D)] = "error"
-                    else:
-                        mm[(pos // D, pos % D)] = ((code - 1) // C, (code - 1) % C)
-                res[key] = (rdims, mm)
+                ncells, body = rest[0], rest[1:]
+                if len(body) == ncells and (TABLE_LIMIT == 0 or ncells <= TABLE_LIMIT):
+                    res[key] = (rdims, ncells, list(body), None)
+                elif len(body) == 2:
+                    res[key] = (rdims, ncells, None, tuple(body))
+                else:
+                    raise Broken("coq-eval:" + name, "table does not decode")
     return res
 
 
@@ -711,33 +708,49 @@ def correspond(ctx):
         C = _prod(ocol)
         ts = valid_call(c)
         if mode == "table":
-            rdims, mm = m
+            rdims, ncells, mcells, mdigest = m
             if out.dims != [list(rdims)] * 2:
                 corr.disagree(inp, out.dims, rdims, "result dims differ")
                 corr.count(key, nontrivial=True, sample=inp)
                 continue
-            if "error" in mm.values():
-                bad = [k for k, v in mm.items() if v == "error"][:3]
-                corr.disagree(inp, "entry exists", str(bad), "model cannot evaluate an entry of the result")
-                corr.count(key, nontrivial=True, sample=inp)
-                continue
-            im = {}
-            nz = np.argwhere(E != 0)
+            D = _prod(rdims)
+            M = _prod(orow) * C + 1
+            # the implementation's table from the coded operator: cell = (x*D + y) * M + 1 + r*C + c
+            nz = np.argwhere(E != 0)          # row-major order
+            vals = E[nz[:, 0], nz[:, 1]]
+            codes = np.rint(vals.real).astype(np.int64)
             ok = True
-            for i, j in nz:
-                v = E[i, j]
-                code = int(round(v.real)) - 1
-                if v.imag != 0 or v.real != code + 1 or code < 0 or code >= C * C:
-                    corr.disagree(inp, f"entry ({i},{j}) = {complex(v)}", "a copy of one operator entry",
-                                  "result entry is not a copy of an operator entry")
-                    ok = False
-                    break
-                im[(int(i), int(j))] = (code // C, code % C)
-            if ok and im != mm:
-                diff = sorted(set(im.items()) ^ set(mm.items()))[:3]
-                corr.disagree(inp, {str(k): im.get(k) for k, _ in diff}, {str(k): mm.get(k) for k, _ in diff},
-                              "index map (which operator entry lands where) differs")
+            if not (np.all(vals.imag == 0) and np.all(vals.real == codes) and np.all(codes >= 1)
+                    and np.all(codes <= C * _prod(orow))):
+                corr.disagree(inp, "an entry that is not a copy of one operator entry", "copies of operator entries",
+                              "result entry is not a copy of an operator entry")
                 ok = False
+            icells = [int(v) for v in ((nz[:, 0] * D + nz[:, 1]) * M + codes)] if ok else []
+            if ok and mcells is not None:
+                if icells != mcells:
+                    diff = sorted(set(icells) ^ set(mcells))[:4]
+
+                    def show(n):
+                        pos, code = divmod(n, M)
+                        return dict(x=pos // D, y=pos % D, r=(code - 1) // C, c=(code - 1) % C,
+                                    side="impl" if n in set(icells) else "model")
+                    corr.disagree(inp, [show(n) for n in diff if n in set(icells)],
+                                  [show(n) for n in diff if n not in set(icells)],
+                                  "index map (which operator entry lands where) differs")
+                    ok = False
+                corr.tally("tables compared entry by entry")
+            elif ok:
+                if ncells != len(icells) or mdigest != tuple(hash_cells(B, icells) for B in HASH_B):
+                    corr.disagree(inp, dict(cells=len(icells), digest=[hash_cells(B, icells) for B in HASH_B]),
+                                  dict(cells=ncells, digest=list(mdigest)),
+                                  "index map (which operator entry lands where) differs (digest)")
+                    ok = False
+                corr.tally("tables compared by digest")
+            mm = {}
+            if ok:
+                for n in icells:     # equal to the model's table at this point
+                    pos, code = divmod(n, M)
+                    mm[(pos // D, pos % D)] = ((code - 1) // C, (code - 1) % C)
             # matrix units (complete basis) for small operators, a sample otherwise; values must be exactly 1
             if ok:
                 units = [(r, cc) for r in range(C) for cc in range(C)]
